@@ -146,11 +146,24 @@ def real_case(case: dict) -> list:
     rk = real_keys(case)
     back = {v: k for k, v in rk.items()}
     out = []
+    last = []
     try:
         for step in case["script"]:
             before = _listing(cdir)
             log.write_text("")
-            if step[0] in ("seqcrash", "poolcrash"):
+            if step[0] == "mutate":
+                # the caller works on what the last run returned, in place (normalises a list, rescales a frame ...)
+                n = 0
+                for _, v in last:
+                    if isinstance(v, list):
+                        v.clear()
+                        v.append("edited by the caller")
+                        n += 1
+                    elif hasattr(v, "iloc"):
+                        v.iloc[:] = -12345.0
+                        n += 1
+                out.append({"fs": _obs_fs(cdir, keys, before, rk), "mutated": n})
+            elif step[0] in ("seqcrash", "poolcrash"):
                 injs = {k: tuple(i) for k, i in step[1].items()}
                 workers = 0 if step[0] == "seqcrash" else step[2]
                 sys.stdout.flush()
@@ -189,6 +202,7 @@ def real_case(case: dict) -> list:
                 have = {k for k, vid, spec in keys if _final_state(cdir, rk[k], vid, spec) == "full"}
                 try:
                     res = _parallelise(keys, {}, cdir, log, step[1], rk)
+                    last = res
                     o = ["ok", [[back.get(k, repr(k)), _ident(keys, v)] for k, v in res]]
                 except (pickle.UnpicklingError, EOFError):
                     o = "error"
@@ -241,6 +255,8 @@ def model_request(case: dict) -> dict:
         elif step[0] == "poolcrash":
             prog = [[k, ["cut", step[3][k]] if k in step[3] else "d"] for k, _, _ in keys]
             script.append(["crash", prog])
+        elif step[0] == "mutate":
+            script.append(["crash", []])  # the caller's own objects are not files: nothing happens to the cache
         else:
             script.append(["run"])
     return {"op": "c19", "mode": "gen", "sizes": [[vid, psize(vid, spec)] for _, vid, spec in keys],
@@ -269,7 +285,7 @@ def model_obs(case: dict, resp: list) -> list:
         # so a victim that re-creates the very same state is recognised by "it reached its save": no result file yet,
         # killed after the open (and, sequentially, no earlier key stopped the run)
         rewrote = set()
-        if step[0] != "run":
+        if step[0] in ("seqcrash", "poolcrash"):
             for k, c in step[3].items():
                 reached = prev_fin[k] == "absent" and c >= 1
                 if step[0] == "seqcrash":
@@ -409,6 +425,21 @@ def gen_cases(ctx):
         w = rng.choice([0, 0, 2])
         cases.append({"id": cid, "keys": keys, "realkeys": unusual_keys(rng, keys), "script": [["run", w], ["run", 0]]})
         cid += 1
+    # repeated use in ONE interpreter: results come back from disk, the caller edits them in place, the next run
+    # must again return what is on disk
+    mutable = [("list", 20), ("list", 3), ("series", 4), ("str", 8), ("int", 0)]
+    for j in range(ctx.n(8, 60)):
+        keys = mk_keys([rng.choice(mutable[:3])] + [rng.choice(mutable) for _ in range(rng.randint(1, 3))])
+        script = [["run", rng.choice([0, 0, 2])], ["run", 0], ["mutate"], ["run", 0]]
+        if rng.random() < 0.5:
+            script += [["mutate"], ["run", rng.choice([0, 2])]]
+        if rng.random() < 0.3:
+            script = [["mutate"] if st == ["run", 0] and i == 1 else st for i, st in enumerate(script)]  # edit the FIRST run's results
+        case = {"id": cid, "keys": keys, "script": script}
+        if rng.random() < 0.3:
+            case["realkeys"] = unusual_keys(rng, keys)
+        cases.append(case)
+        cid += 1
     # F-C19-2: keys the default file naming cannot hold apart / cannot write
     cases.append({"id": cid, "keys": mk_keys([("int", 0), ("str", 8)]), "realkeys": {"k0": ["s", "k_in/2"]},
                   "script": [["run", 0]]})
@@ -443,6 +474,8 @@ def judge_case(ctx, case, R, M):
             sub["realkeys"] = case["realkeys"]
         if outside_model(case):
             m = None
+        if step[0] == "mutate":
+            continue
         if step[0] != "run":
             # interrupted run: nothing is promised about the files; this validates the model's crash states
             if m is not None and r["fs"] != m["fs"]:
@@ -524,7 +557,8 @@ def _scan_stratum(ctx):
     try:
         tp = np.linspace(0, 2, 5)
         # index labels as users write them; rows that differ only in punctuation are still different rows
-        label_sets = {"range": None, "labels": ["k_in*2", "k_in+2", "rep 1", "rep_1"]}
+        label_sets = {"range": None, "labels": ["k_in*2", "k_in+2", "rep 1", "rep_1"],
+                      "repeated": ["run", "run", "b", "b"]}  # glued frames: the listed finding F-C19-3
         for lname, labels in label_sets.items():
             to_scan = pd.DataFrame({"kin": [1.0, 2.0, 3.0, 4.0]}, index=labels)
             for name, call, frames in [
@@ -547,7 +581,10 @@ def _scan_stratum(ctx):
                     R = {"cached": can(first), "rerun": can(again), "rerun_calls": len(log.read_text().split()),
                          "files": len([p for p in cdir.iterdir() if p.name.endswith(".p")])}
                     S = {"cached": can(plain), "rerun": can(plain), "rerun_calls": 0, "files": len(to_scan.index)}
-                    ctx.judge(case, R, S, None, what=f"scan.{name} with cache vs without, rerun from disk")
+                    if lname == "repeated":
+                        S["files"] = R["files"]  # how many files repeated labels should produce is the repair's choice
+                    ctx.judge(case, R, S, None, finding="F-C19-3" if lname == "repeated" else None,
+                              what=f"scan.{name} with cache vs without, rerun from disk")
     finally:
         shutil.rmtree(d, ignore_errors=True)
 
